@@ -81,6 +81,7 @@ class Mon:
         self.entry = {}         # task id -> do_work entry instant
         self.exit = {}
         self.overcommitted = False
+        self.res_seen = set()   # reservations already seen by the probe
 
     def tag(self, t):
         if t not in self.tags:
@@ -402,6 +403,15 @@ def probe(sim, mon, snaps):
                 hi = split[name][1] if split and name in split else len(cl.machines) // max(STATE.get('parts', 1), 1)
                 if len(idle) + busy_for.get(name, 0) > hi:
                     mon.tag('C09/reservation-above-configured-size')
+                if name not in mon.res_seen:
+                    # first sight of a reservation (made during the previous step): never below the minimum
+                    mon.res_seen.add(name)
+                    lo = split[name][0] if split and name in split else STATE.get('min_res', 1)
+                    if len(idle) + busy_for.get(name, 0) < lo:
+                        mon.tag('C09/reservation-below-configured-minimum')
+            for name in list(mon.res_seen):
+                if name not in r['idle']:
+                    mon.res_seen.discard(name)
         # C15: once a task that was given a delay has completed (and the scheduler has had two steps to see it) the
         # schedule is reported as delayed, at every later instant
         if sch.schedule_status is not ScheduleStatus.DELAYED:
@@ -506,7 +516,7 @@ def build(sc):
     STATE.clear()
     STATE.update(batch=(sc['alg']['kind'] in ('batch', 'reserve_only')), parts=sc['alg'].get('parts', 1), sim=None,
                  obs_index={f'o{i + 1}': i for i in range(nobs)}, names=sc.get('names'),
-                 shipped_alg=(sc['alg']['kind'] in ('batch', 'queue', 'dynamic', 'greedy')), split=sc['alg'].get('split'))
+                 shipped_alg=(sc['alg']['kind'] in ('batch', 'queue', 'dynamic', 'greedy')), split=sc['alg'].get('split'), min_res=sc['alg'].get('min', 1))
     gl = sc['graphs'] if len(sc['graphs']) > 1 else sc['graphs'] * nobs
     if sc['alg']['kind'] in ('dynamic', 'greedy') or sc.get('static'):
         model = StubStatic(graphs, sc['assign'], sc['ests'])
@@ -722,6 +732,8 @@ def final_oracles(sc, res):
         for t in ing:
             if t.ast != o.ast or t.aft - t.ast != o.duration:
                 mon.tag('C08/ingest-not-held-for-observation-duration')
+        if len([tid for tid in mon.activations if tid.startswith(o.name + '_ingest_t')]) != dem:
+            mon.tag('C08/ingest-did-not-hold-exactly-the-pipeline-demand')
         if o.ast is not None and o.ast < o.est:
             mon.tag('C08/started-before-planned-start')
     # ---- C02: end state
@@ -807,7 +819,8 @@ def outputs(sim):
              bf.hot[0].current_capacity, bf.cold[0].current_capacity, [o.name for o in bf.hot[0].observations['stored']],
              [o.name for o in bf.cold[0].observations['stored']], [o.status.value for o in tel.observations], tel.telescope_use,
              [o.name for o in sch.observation_queue], sch.provision_ingest, sch.schedule_status.value, sch.delay_offset)
-    return dict(events=ev, table=df, tasks=tasks, state=state)
+    ev_rows = [(e['time'], e['actor'], e['observation'], e['event'], e['resource']) for e in sim.monitor.events.rows]     # in log order
+    return dict(events=ev, table=df, tasks=tasks, state=state, event_rows=ev_rows)
 
 
 def plain_outputs(sim):
